@@ -6,12 +6,12 @@ W=/tmp/mt_seedalt; VD=/tmp/vt_work
 git -C /repo worktree remove --force $W 2>/dev/null; rm -rf $W
 git -C /repo worktree add -q --detach $W HEAD && cp /repo/Cargo.lock $W/
 git -C $W apply "$P" || { echo "patch does not apply"; exit 2; }
-cd /tmp/verif_wt
+cd ${HARNESS_WT:-/tmp/verif_wt}
 sed "s#@REPO@#$W#" harness/Cargo.toml.in > harness/Cargo.toml
-( cd harness && CARGO_TARGET_DIR=/tmp/chk_target_seed cargo build --release --offline > /tmp/seedalt_build.log 2>&1 ) || { echo BUILD-FAIL; tail -5 /tmp/seedalt_build.log; exit 2; }
+( cd harness && CARGO_TARGET_DIR=${HARNESS_TGT:-/tmp/chk_target_seed} cargo build --release --offline > /tmp/seedalt_build.log 2>&1 ) || { echo BUILD-FAIL; tail -5 /tmp/seedalt_build.log; exit 2; }
 mkdir -p $VD; cp /verif/known_findings.json $VD/
 for id in "$@"; do
-  VERIF_STALL=30 VERIF_DIR=$VD /tmp/chk_target_seed/release/mtverif run $id --tier quick --budget ${SB:-10} > $VD/seed_$id.log 2>&1; rc=$?
+  VERIF_STALL=30 VERIF_DIR=$VD ${HARNESS_TGT:-/tmp/chk_target_seed}/release/mtverif run $id --tier quick --budget ${SB:-10} > $VD/seed_$id.log 2>&1; rc=$?
   echo "$id exit=$rc $(grep -c '^VIOLATION' $VD/seed_$id.log) violation lines; $(grep -m1 'signature:' $VD/seed_$id.log)"
 done
 git -C /repo worktree remove --force $W; rm -rf $W
